@@ -60,7 +60,7 @@ def main(rep, tier, only):
                    tests=(tier == "thorough"), test_filter=lambda f: "/log/" in f)
     rep.extra.update(db.stats())
     rep.rule("LOCK-1", "every log::context member that touches the node tree declares std::lock_guard<std::mutex> on "
-                       "impl_->mutex() as its first statement (guard scope = whole body)", floor=4)
+                       "impl_->mutex() at the top level of its body before its first tree access (guard scope = rest of the body)", floor=4)
     rep.rule("LOCK-2", "find_location_impl takes a lock_guard witness parameter and every call passes the caller's live guard", floor=2)
     rep.rule("LOCK-3", "find_or_create_child / find_child* are only called from locked context members or from find_location_impl", floor=2)
     rep.rule("ATOM-1", "context_tree_node::atomic_level_ is a std::atomic accessed only through load() / assignment; name_ is "
@@ -83,12 +83,25 @@ def main(rep, tier, only):
         # root() / level_streams() hand out references to address-stable objects: no tree access
         if not acc:
             continue
+        # the guard must be a top-level declaration of the body (its scope is the rest of the function) that precedes
+        # every statement containing a tree access
         items = (fn.get("body") or {}).get("ch", [])
-        ld = lock_decl(u, items[0]) if items else None
+        ld, gi = None, None
+        for i, it in enumerate(items):
+            ld = lock_decl(u, it)
+            if ld is not None:
+                gi = i
+                break
         key = name
-        if ld is None:
+        early = None
+        if ld is not None:
+            for it in items[:gi]:
+                for (n, d, qn) in L.calls_in(u, it):
+                    if any(qn.startswith(p_) for p_ in TREE_ACCESS_PREFIX) or qn in TREE_ACCESS_EXACT:
+                        early = (qn, u.loc(n["loc"]))
+        if ld is None or early:
             rep.fail("LOCK-1", key, F.primary_site(fn), name,
-                     why="accesses the node tree (%s at %s) without declaring the lock guard as its first statement" % (acc[0][0], acc[0][1]))
+                     why="accesses the node tree (%s at %s) outside the scope of a lock guard declared at the top level of the body" % (early or acc[0]))
             continue
         vid, ty, src = ld
         if ty.replace("const ", "") != "std::lock_guard<std::mutex>":
@@ -98,7 +111,7 @@ def main(rep, tier, only):
             rep.fail("LOCK-1", key, F.primary_site(fn), name, why="guard is not constructed from impl_->mutex() but from %s" % src)
             continue
         locked.add(name)
-        rep.ok("LOCK-1", key, F.primary_site(fn), name, how="guard-first-statement", detail={"tree_accesses": len(acc)})
+        rep.ok("LOCK-1", key, F.primary_site(fn), name, how="guard-dominates-every-access", detail={"tree_accesses": len(acc)})
         # LOCK-2: calls of find_location_impl pass this guard
         for (n, d, qn) in L.calls_in(u, fn.get("body")):
             if qn == IMPL + "::find_location_impl":
